@@ -208,6 +208,28 @@ Fixpoint plain_decode_all (fuel : nat) (s : bytes) : list message * derr :=
   end.
 Definition plain_run (s : bytes) : list message * derr := plain_decode_all (S (length s)) s.
 
+(* ---------- the pipeline and the snapshot path ---------- *)
+(* pipeline.go: the POST body is pbutil.MustMarshal(&m), nothing else; pipelineHandler reads the whole body
+   (ioutil.ReadAll: a body shorter than its Content-Length is an error of net/http, [short]) and unmarshals it *)
+Definition pipeline_body (m : message) : bytes := msg_marshal m.
+Definition pipeline_receive (short : bool) (body : bytes) : option message :=
+  if short then None
+  else match msg_unmarshal body with Ok m => Some m | Err _ => None end.
+
+(* snapshot_sender.go createSnapBody: a messageEncoder frame followed by the snapshot file;
+   snapshotHandler: messageDecoder{r: r.Body}.decode(), the type must be MsgSnap, then
+   SaveDBFrom(r.Body, m) consumes the rest (a read error of the body, [short], fails the save) *)
+Definition snap_body (m : message) (db : bytes) : bytes := plain_encode m ++ db.
+Inductive snap_out := SnapDelivered (m : message) (db : bytes) | SnapRejected.
+Definition snap_receive (short : bool) (body : bytes) : snap_out :=
+  match plain_decode body with
+  | DErr _ => SnapRejected
+  | DOk (m, rest) =>
+    if negb (m_type m =? msg_snap) then SnapRejected
+    else if short then SnapRejected
+    else SnapDelivered m rest
+  end.
+
 (* ---------- well-formedness (the premise of the round-trip theorems), as boolean predicates ---------- *)
 Definition group_eqb (a b : group) : bool := same_group a b && bytes_eqb (g_name a) (g_name b).
 Definition is_none {A} (o : option A) : bool := match o with None => true | Some _ => false end.
